@@ -255,8 +255,21 @@ func run(c *hlib.Ctx) *hlib.Run {
 func runOnce(c *hlib.Ctx, s *choice.Stream, freezeClock bool) *hlib.Run {
 	out := &hlib.Run{Counters: map[string]int64{}}
 	w := worlds[s.Pick([]int{5, 5, 1, 2}, "world")]
-	cl := w.get()
+	ww := w
+	warm := w.get()
+	cl := warm
 	isFull := strings.HasPrefix(w.name, "full")
+	// Cold runs: the concurrent calls are the very first calls on a freshly
+	// built (and frozen) instance, so lazily initialised or memoised state is
+	// still unset when they meet; the solo reference comes from the equivalent
+	// warm instance.
+	cold := !isFull && s.Draw(4, "cold-instance") == 0
+	if cold {
+		cw := &world{name: w.name + "(cold)", docs: w.docs, thr: w.thr, traced: w.traced}
+		cl = cw.get()
+		defer cw.arena.Release()
+		w = cw
+	}
 
 	// ---- workload ----------------------------------------------------------
 	pool := &v2kit.Pool{Scenarios: scs, Docs: w.docs}
@@ -309,10 +322,10 @@ func runOnce(c *hlib.Ctx, s *choice.Stream, freezeClock bool) *hlib.Run {
 	solo := make([]classifier.Results, nin)
 	soloRep := sequential(func() {
 		for i, in := range inputs {
-			solo[i] = cl.Match(append([]byte(nil), in.Data...))
+			solo[i] = warm.Match(append([]byte(nil), in.Data...))
 		}
 	})
-	if v := trapViolation(soloRep, w, "a single Match call run alone"); v != nil {
+	if v := trapViolation(soloRep, ww, "a single Match call run alone"); v != nil {
 		out.Violation = v
 		return out
 	}
@@ -372,7 +385,10 @@ func runOnce(c *hlib.Ctx, s *choice.Stream, freezeClock bool) *hlib.Run {
 	for k, v := range rep.Counters {
 		out.Counters[k] += v
 	}
-	out.Counters["runs_world_"+w.name]++
+	out.Counters["runs_world_"+strings.TrimSuffix(w.name, "(cold)")]++
+	if cold {
+		out.Counters["runs_on_cold_instance"]++
+	}
 	if w.tracer != nil {
 		out.Counters["tracer_callbacks"] += *w.tracer - tracer0
 	}
